@@ -11,6 +11,10 @@ claimed = {
          "Every operand pair of every Galois field the library constructs (and every triple for sizes <= 256) is executed on the real code and compared with an independent reference; polynomial division is enumerated over all divisors/dividends up to a stated degree; the Reed-Solomon encoder is explored as a state machine (BFS to a fixpoint over request orders, exact state key) with syndromes, reference remainder and cache contents checked in every state. Field laws are finite statements, so exhaustive enumeration decides them outright; the unbounded parts (polynomial degree, data length) are covered to stated bounds.",
          "Trusted: the reference carry-less multiplication in harness/checks/c17.go. Polynomial sweeps are bounded (coefficient counts in evidence.bounds); GF(1024)/GF(4096) associativity follows from equality with the reference ring and is not enumerated.",
          "4.C17"),
+ "C18": ("B", "explicit-state BFS over BitList operation sequences (exact concrete state key via hook, clone-based successors), every observer compared with a []bool model after every transition",
+         "All operation sequences up to the stated depth from the empty list, from NewBitList(n) and from lists pre-filled to within k bits of every internal growth and word boundary are executed on the real BitList; Len, every GetBit, GetBytes and the drained IterateBytes channel are compared with a boolean-slice model in every reached state, and the iterator goroutine must be gone. The sequence space is what unit tests cannot sample; bounded exhaustive search over it with an exact state key is the natural decision procedure.",
+         "Trusted: the []bool model and packing in harness/checks/c18.go; hooks VerifBitListState/VerifBitListClone (read/copy only). Bounds (depth, k) in evidence.bounds.",
+         "4.C18"),
 }
 pending_reason = "check not built yet in this round (planned, see DESIGN.md section 4); not claimed until its explorer exists and passes on the unchanged tree"
 
